@@ -42,7 +42,7 @@ def pcJ : Pc → Json
   | .fin => Json.arr #["fin"]
   | .cCbRecv k => Json.arr #["cCbRecv", keyJ k]
   | .cCbLost k => Json.arr #["cCbLost", keyJ k]
-  | .cOpen k => Json.arr #["cOpen", keyJ k]
+  | .cOpen k _ => Json.arr #["cOpen", keyJ k]
   | .cRemote k => Json.arr #["cRemote", keyJ k]
   | .cWaitOpen k => Json.arr #["cWaitOpen", keyJ k]
   | .cWaitRemote k => Json.arr #["cWaitRemote", keyJ k]
